@@ -344,3 +344,18 @@ Example ex_accepted :
   /\ is_sharing (scheduler_interpret ex_pf ex_pod) = true
   /\ g_count (scheduler_interpret ex_pf ex_pod) = 2.
 Proof. repeat split; vm_compute; reflexivity. Qed.
+
+(** whatever is stored after any sequence of writes was accepted by the validation *)
+Lemma stored_is_validated en pf : forall writes stored p,
+  (forall q, stored = Some q -> admission_validate en pf q = true) ->
+  fold_left (write en pf) writes stored = Some p -> admission_validate en pf p = true.
+Proof.
+  induction writes as [|w ws IH]; intros stored p Hs H; cbn [fold_left] in H.
+  - apply Hs. exact H.
+  - eapply IH; [|exact H]. intros q Hq. unfold write in Hq.
+    destruct (admission_validate en pf w) eqn:E; [inversion Hq; subst; exact E|apply Hs; exact Hq].
+Qed.
+
+Theorem stored_pod_is_validated en pf writes p :
+  stored_after en pf writes = Some p -> admission_validate en pf p = true.
+Proof. unfold stored_after. apply stored_is_validated. intros q Hq. discriminate. Qed.
